@@ -186,6 +186,40 @@ def bad_cap(ctx, case):
         ctl.restore_show()
 
 
+def long_history(ctx, case):
+    """sessions of hundreds to thousands of recorded messages (what GDB mode and long logs produce): `list M ~ N` shows exactly the last N matches,
+    oldest first, and the counts add up - whatever way the history is walked (blocks, slices, copies)"""
+    length, period = case
+    from core import matcher
+    w = ctl.make_world(ctx, 2)
+    try:
+        sel = ctx.choose([None, 0], 'selection')
+        for i in range(length):
+            ctl.add_message(w, 0 if i % 5 else 1, name='m%d' % (i % period))
+        if sel is not None:
+            w.ctl.process_command('connection A')
+        cap = ctx.choose([None, 1, 2, 7], 'cap')
+        which = ctx.choose([0, period - 1], 'which_name')
+        n0 = len(w.out.items)
+        w.ctl.process_command('list .m%d' % which + (' ~ %d' % cap if cap is not None else ''))
+        items = w.out.items[n0:]
+        shown = ctl.msg_lines(items)
+        scope = [m for m, ci in w.msgs if sel is None or ci == sel]
+        matching = [m.tag for m in scope if m.name == 'm%d' % which]
+        want = matching if cap is None else matching[-cap:]
+        ctx.check('the lines shown are exactly the last N matching messages of the scope, oldest first (N = all without a cap)', shown == want)
+        cm = [COUNT_RE.match(x.strip()) for x in items]
+        cm = [m for m in cm if m]
+        if want:
+            ctx.check('one summary line whose counts add up to the number of recorded messages in scope', len(cm) == 1 and int(cm[0].group(1)) == len(shown)
+                      and int(cm[0].group(1)) + int(cm[0].group(2)) + int(cm[0].group(3) or 0) == len(scope))
+        else:
+            mm = [re.search(r'None of the (\d+) messages', x) for x in items]
+            ctx.check('nothing matches: one summary line counting every recorded message of the scope', [int(m.group(1)) for m in mm if m] == [len(scope)])
+    finally:
+        ctl.restore_show()
+
+
 def obligations(tier):
     import itertools
     n = 5 if tier == 'quick' else 6
@@ -210,6 +244,9 @@ def obligations(tier):
            stubs=['matcher = abstract leaf with symbolic verdicts', 'Message.show stubbed'], outside='N < 0; more than %d messages' % n),
         Ob('list-command', 'symx', 'list_command: `~ N` splitting, matcher text handed to the parser, default = current filter', FUNCS, 'texts: "", X, X ~ 0/1/2/3/9, ~ 1, ~2; 3 histories', listing,
            cases=list_cases, stubs=['matcher.parse stubbed to return the abstract leaf (parsing is C05)']),
+        Ob('long-histories', 'symx', '`list M ~ N` over histories of 513 .. 2 100 messages (matches every 1st / 3rd / 300th message): exactly the last N matches, counts add up', FUNCS,
+           'lengths 513, 700, 1025%s x periods 1, 3, 300 x caps none/1/2/7 x 2 selections' % ('' if tier == 'quick' else ', 2100'), long_history,
+           cases=[(L, p) for L in ((513, 700, 1025) if tier == 'quick' else (513, 700, 1025, 2100)) for p in (1, 3, 300)], stubs=['Message.show stubbed']),
         Ob('list-bad-cap', 'symx', 'a non-numeric cap is reported and nothing is listed', FUNCS[:1], '3 texts', bad_cap, cases=[None]),
         Ob('show-messages-reachable', 'symx', 'reachability twin', FUNCS, bounds, twin, cases=[('show', (0, 1, 0), None)], expect_cex=True),
     ]
